@@ -138,7 +138,12 @@ class C11:
             if case["extra"]:
                 kw["extra_info"] = {"x-custom": {"b": 2, "a": [1, 2]}, "zz": "end", "0first": 1, "source": "S",
                                     "private": 1}
-                kw["extra_top"] = {"created by": "ref", "creation date": 1, "nodes": [["h", 1]], "zzz": {"y": 1}}
+                kw["extra_top"] = {"created by": "ref", "creation date": 1, "nodes": [["h", 1]], "zzz": {"y": 1},
+                                   "encoding": "UTF-8", "comment.utf-8": "c", "publisher": "p", "httpseeds": ["http://h/s"]}
+                # keys other clients add next to the real ones: none of them replaces 'name', the trackers or the seeds
+                kw["extra_info"].update({"name.utf-8": "ANOTHER name.utf-8 " + name, "publisher-url": "http://p/",
+                                         "md5sum": "0" * 32, "display name": "dn", "ws": "http://not/a/seed"})
+                counters["foreign_keys_next_to_name_cases"] = 1
             if case["announce"]:
                 kw["announce"] = case["announce"]
             if case["tiers"]:
